@@ -541,7 +541,9 @@ def run(ctx):
     cs = cases(ctx.thorough)
     a = [run_case((i, c, ctx.scratch)) for i, c in enumerate(cs[:6])]
     b = [run_case((i, c, ctx.scratch)) for i, c in enumerate(cs[:6])]
-    if a != b:
+    # compared by verdict (signatures + outcome class): the texts may quote process ids of a crashing subject
+    shape = lambda rs: [(sorted(sig for sig, _ in v), o) for v, o in rs]
+    if shape(a) != shape(b):
         raise Machinery("C06: the same case gave two different observations")
     outcomes = set()
     with ProcessPoolExecutor(max_workers=16, initializer=_init, initargs=(VB_PATH, VBSEQ_PATH)) as ex:
